@@ -228,11 +228,14 @@ class Lemma:
     def __init__(self, name, vars_, lhs, rhs, tactic='solve_struct', meta=None):
         self.name = name; self.vars = vars_; self.lhs = lhs; self.rhs = rhs; self.tactic = tactic; self.meta = meta or {}; self.ops = 'O'; self.ty = 'res (valO O)'
     def statement(self):
-        if getattr(self, 'intstd', False): return 'forall (O:Ops) (chk:bool), IntStd O chk -> forall %s, %s = %s' % (binders(self.vars, self.ops), self.lhs, self.rhs)
-        return 'forall (O:Ops) %s, %s = %s' % (binders(self.vars, self.ops), self.lhs, self.rhs)
+        fa = ('forall %s, ' % binders(self.vars, self.ops)) if self.vars else ''
+        if getattr(self, 'intstd', False): return 'forall (O:Ops) (chk:bool), IntStd O chk -> LitStd O -> %s%s = %s' % (fa, self.lhs, self.rhs)
+        return 'forall (O:Ops)%s, %s = %s' % ((' ' + binders(self.vars, self.ops)) if self.vars else '', self.lhs, self.rhs)
     def text(self):
+        if getattr(self, 'intstd', False) == 'concrete':
+            return 'Lemma %s : %s.\nProof. intros O; destruct O; intros chk HZ HL; intros; intstd_eqs HZ; litstd_eqs HL. Timeout %d solve_zc ltac:(unlock_ints) ltac:(use_lits). all: reflexivity. Qed.' % (self.name, self.statement(), LEMMA_TIMEOUT[0])
         if getattr(self, 'intstd', False):
-            return 'Lemma %s : %s.\nProof. intros O; destruct O; intros chk HZ; intros; intstd_eqs HZ. Timeout %d solve_z f32_pred f32_cmp f64_pred f64_cmp chk ltac:(unlock_ints). all: reflexivity. Qed.' % (self.name, self.statement(), LEMMA_TIMEOUT[0])
+            return 'Lemma %s : %s.\nProof. intros O; destruct O; intros chk HZ HL; intros; intstd_eqs HZ; litstd_eqs HL. Timeout %d solve_z f32_pred f32_cmp f64_pred f64_cmp chk ltac:(unlock_ints) ltac:(use_lits). all: reflexivity. Qed.' % (self.name, self.statement(), LEMMA_TIMEOUT[0])
         return 'Lemma %s : %s.\nProof. intros O; destruct O; intros. Timeout %d %s. all: reflexivity. Qed.' % (self.name, self.statement(), LEMMA_TIMEOUT[0], self.tactic)
 
 HDR = 'From Glam Require Import Base Spec.\nFrom Gen Require Import Table.\nFrom Coq Require Import ZArith List String Bool.\nImport ListNotations.\nOpen Scope Z_scope.\n'
@@ -500,7 +503,10 @@ def gen_value(structs, enums, t, g):
         parts = t['t'] if 't' in t else [t['a']] * t['len']; ws = []; ts = []
         for x in parts: w, tt = gen_value(structs, enums, x, g); ws += w; ts.append(tt)
         return ws, 'VT [%s]' % '; '.join(ts)
-    if 'simd' in t and t['simd'] == 'f32x4': ws = [g.f32() for _ in range(4)]; return ws, 'VT [%s]' % '; '.join('vf32 %d' % w for w in ws)
+    if 's' in t:
+        n = g.r.choice([0, 1, 2, 3, 4, 5, 6, 8, 9, 10, 12, 13, 16, 17, 20]); g.cnt('slice:len%d' % n); ws = [n]; ts = []
+        for _ in range(n): w, tt = gen_value(structs, enums, t['s'], g); ws += w; ts.append(tt)
+        return ws, 'VT [%s]' % '; '.join(ts)
     raise SymErr('gen ' + json.dumps(t))
 
 def words_from_values(structs, enums, t, it):
@@ -555,6 +561,11 @@ def canon(structs, enums, t, it, side):
         raise SymErr('canon ' + n)
     if 't' in t: return [x for ft in t['t'] for x in canon(structs, enums, ft, it, side)]
     if 'a' in t and t['len'] is not None: return [x for _ in range(t['len']) for x in canon(structs, enums, t['a'], it, side)]
+    if 's' in t:
+        out = []
+        while True:
+            try: out += canon(structs, enums, t['s'], it, side)
+            except StopIteration: return out
     if 'o' in t or 'r' in t:
         inner = t.get('o', t.get('r')); tag = next(it)
         return [0] if tag == 0 else [1] + canon(structs, enums, inner, it, side)
@@ -603,6 +614,8 @@ def correspondence(idx, targets, seed, per_fn, tag, fuel=400):
     for i, c in enumerate(cases):
         cfg, f, words, term = c; structs = idx.structs(cfg); enums = idx.enums(cfg)
         ret = f['self'] if (f['self_mut'] and f['ret'] == 'unit') else f['ret']
+        for p in f['params']:
+            if p[3] and isinstance(p[1], dict) and 's' in p[1]: ret = p[1]
         try:
             dv = canon_driver(structs, enums, ret, drv_out[i]); mv = canon_model(structs, enums, ret, model[i])
         except SymErr as e:
